@@ -106,6 +106,9 @@ def strategy(tier):
         kind=st.sampled_from(KINDS),
         bad_kind=st.sampled_from(["", "tcp5", "TCP", "inet ", "???", "unix4", "all6"]),
         proc_pick=st.integers(0, 4),
+        # ::1 cannot be bound on this host (IPv6 administratively disabled);
+        # the kernel's IPv6 socket tables are what they are all the same
+        no_ipv6_bind=st.sampled_from([False, False, True]),
     ))
 
 
@@ -171,6 +174,7 @@ def ip_text(fam, b):
 
 def build(case):
     k = simk.Kernel()
+    k.ipv6_bindable = not case.get("no_ipv6_bind", False)
     inode = 5000
     inet = []
     seen = set()
@@ -357,6 +361,8 @@ def run_case(case):
             labels.add("unix-abstract")
     if case["odd_unix_lines"]:
         labels.add("odd-unix-line")
+    if case.get("no_ipv6_bind") and any(s_["fam"] == 6 for s_ in inet):
+        labels.add("ipv6-rows-on-host-without-bindable-::1")
     labels.add("kind=" + kind)
     feat = labels - {"kind=" + kind}
     nontrivial = (",".join(sorted(feat)) + "|" + kind) if feat & {
